@@ -39,6 +39,10 @@ native('C27.roundtrip', ['C27'], 'bounded', 'codec, expected over 18 values each
        'air-interpreter-sede', 'crates/air-lib/interpreter-sede/src/multiformat.rs', 'multiformat_rt.rs',
        'verif_native_multiformat::multiformat_round_trip_on_boundaries',
        what='real unsigned_varint: decode_multiformat(encode_multiformat(v, codec), expected) = Ok(v) iff codec == expected else Err(Codec(codec)); truncated input is an error (the varint round-trip axiom of unit multiformat, on the grid)')
+native('C27.varint_all', ['C27'], 'bounded', 'every u32 tag (2^32, complete) x 3 tails (empty, [0x80,0x01], [0xff])',
+       'air-interpreter-sede', 'crates/air-lib/interpreter-sede/src/multiformat.rs', 'multiformat_rt.rs',
+       'verif_native_multiformat::varint_round_trip_every_u32', tier='thorough',
+       what='real unsigned_varint: decode::u32(encode::u32(n) ++ rest) = (n, rest) for every n: the axiom unit multiformat assumes (axiom_varint_round_trip), complete in n, bounded in the tail')
 native('C01.tracepos', ['C01', 'C09'], 'bounded', '9 x 9 boundary grid of u32 operands', 'air-interpreter-data',
        'crates/air-lib/interpreter-data/src/trace_pos.rs', 'tracepos_shim.rs', 'verif_native_tracepos::operators_match_the_shim',
        what='conformance of the trusted TracePos shim: the newtype_derive operators panic exactly on overflow/underflow, conversions are the identity')
